@@ -100,7 +100,7 @@ static void with_sig_bytes(int cls, int variant, const char *h, const char *p, c
 	free(t); free(s64);
 }
 
-static void ec_corners(const char *h, const char *p, const unsigned char *sig, size_t sl, const vh_key_t *k)
+static void ec_corners(const char *h, const char *p, const unsigned char *sig, size_t sl, const vh_key_t *k, int alg)
 {
 	size_t w = sl / 2;
 	unsigned char buf[300];
@@ -152,6 +152,35 @@ static void ec_corners(const char *h, const char *p, const unsigned char *sig, s
 	if (sig[0] == 0 && sig[w] == 0) {
 		memcpy(buf, sig + 1, w - 1); memcpy(buf + w - 1, sig + w + 1, w - 1);
 		with_sig_bytes(M_EC_CORNER, 100, h, p, buf, 2 * (w - 1));
+	}
+	/* r chosen so that u1*G + u2*Q is the point at infinity (r = -e/d mod n): not a valid signature; a verifier's
+	 * primitive reports this as an error rather than as "bad signature", and an error is not an acceptance */
+	{
+		BIGNUM *d = NULL, *e = BN_new(), *di = NULL;
+		BN_CTX *cx = BN_CTX_new();
+		unsigned char dg[EVP_MAX_MD_SIZE]; unsigned int dgl = 0;
+		char *msg = malloc(strlen(h) + strlen(p) + 2);
+		sprintf(msg, "%s.%s", h, p);
+		if (EVP_PKEY_get_bn_param(k->pkey, OSSL_PKEY_PARAM_PRIV_KEY, &d) && vh_alg_md(alg) &&
+		    EVP_Digest(msg, strlen(msg), dg, &dgl, vh_alg_md(alg), NULL) && (int)dgl * 8 <= BN_num_bits(n) + 7) {
+			BN_bin2bn(dg, (int)dgl, e);
+			if ((int)dgl * 8 > BN_num_bits(n)) BN_rshift(e, e, (int)dgl * 8 - BN_num_bits(n));
+			di = BN_mod_inverse(NULL, d, n, cx);
+			if (di) {
+				BN_mod_mul(t, e, di, n, cx);
+				BN_sub(t, n, t);			/* t = -e/d mod n */
+				if (!BN_is_zero(t) && (size_t)BN_num_bytes(t) <= w) {
+					memset(buf, 0, sl); BN_bn2binpad(t, buf, (int)w); buf[sl - 1] = 1;	/* s = 1 */
+					with_sig_bytes(M_EC_CORNER, 200, h, p, buf, sl);
+					memcpy(buf + w, sig + w, w);							/* s of the genuine signature */
+					with_sig_bytes(M_EC_CORNER, 201, h, p, buf, sl);
+					memset(buf + w, 0xff, w); BN_sub(e, n, BN_value_one()); BN_bn2binpad(e, buf + w, (int)w);	/* s = n-1 */
+					with_sig_bytes(M_EC_CORNER, 202, h, p, buf, sl);
+				}
+			}
+		}
+		free(msg);
+		BN_free(d); BN_free(e); BN_free(di); BN_CTX_free(cx);
 	}
 out:
 	EC_GROUP_free(g);
@@ -397,7 +426,7 @@ static void run_case(int ki, int alg, int base, int pinroute)
 		free(msg);
 	}
 	if (k->kind == VH_K_EC)
-		ec_corners(h, p, sig, (size_t)sl, k);
+		ec_corners(h, p, sig, (size_t)sl, k, alg);
 	/* constant signatures */
 	memset(tmp, 0, (size_t)sl); with_sig_bytes(M_CONST, 0, h, p, tmp, (size_t)sl);
 	memset(tmp, 0xff, (size_t)sl); with_sig_bytes(M_CONST, 1, h, p, tmp, (size_t)sl);
